@@ -174,9 +174,9 @@ func (c classSpec) decl(sfx string) string {
 	}
 	switch {
 	case c.ctor && c.her == herCtor:
-		fmt.Fprintf(&sb, " public function __construct($x) { parent::__construct(\"me\"); $this->%s = $x; }", c.props[0])
+		fmt.Fprintf(&sb, " public function __construct(int $n, %s $x, string $s = \"d\") { parent::__construct(\"me\"); $this->%s = $x; }", c.params[0], c.props[0])
 	case c.ctor:
-		fmt.Fprintf(&sb, " public function __construct($x) { $this->%s = $x; }", c.props[0])
+		fmt.Fprintf(&sb, " public function __construct(int $n, %s $x, string $s = \"d\") { $this->%s = $x; }", c.params[0], c.props[0])
 	case c.her == herCtor:
 		sb.WriteString(" public function __construct() { parent::__construct(\"me\"); }")
 	}
@@ -192,6 +192,9 @@ func (c classSpec) decl(sfx string) string {
 	for i, m := range c.checks {
 		fmt.Fprintf(&sb, " public function %s(%s $x) { return 1; }", m, c.params[i])
 	}
+	for _, m := range c.multis() {
+		sb.WriteString(m.decl(c))
+	}
 	for i, p := range c.props {
 		fmt.Fprintf(&sb, " public function cur_%s() { return $this->%s; }", p, p)
 		fmt.Fprintf(&sb, " public function poke_%s($other, $x) { $other->%s = $x; return 1; }", p, p)
@@ -202,6 +205,177 @@ func (c classSpec) decl(sfx string) string {
 	}
 	sb.WriteString(" }\n")
 	return sb.String()
+}
+
+// ---------------------------------------------------------------------------------
+// methods with 2..4 parameters that mix type parameters and concrete types in every
+// position (op 'M'). A position is declared with type parameter tp (>= 0) or with the
+// concrete type conc; it may be nullable (?T) or carry a default (trailing positions,
+// may be omitted); store >= 0 names the property the method body stores the argument into.
+type posSpec struct {
+	tp       int  // index of the type parameter, -1 for a concrete type
+	conc     int8 // concrete type (vInt, vString, vArray) when tp < 0
+	nullable bool
+	def      bool
+	store    int // property index stored into, -1 none
+}
+
+type multiSpec struct {
+	name string
+	pos  []posSpec
+	ret  string // declared return type ("" none)
+}
+
+var multiBox = []multiSpec{
+	{name: "m2a", pos: []posSpec{{tp: -1, conc: vInt, store: -1}, {tp: 0, store: 0}}},
+	{name: "m2b", pos: []posSpec{{tp: 0, store: 0}, {tp: -1, conc: vString, def: true, store: -1}}, ret: "int"},
+	{name: "m3", pos: []posSpec{{tp: 0, store: -1}, {tp: -1, conc: vInt, store: -1}, {tp: 0, store: 0}}, ret: "int"},
+	{name: "m4", pos: []posSpec{{tp: -1, conc: vString, store: -1}, {tp: 0, store: 0}, {tp: -1, conc: vArray, store: -1}, {tp: 0, store: -1}}},
+	{name: "mn", pos: []posSpec{{tp: -1, conc: vInt, store: -1}, {tp: 0, store: 0}, {tp: 0, nullable: true, store: -1}}},
+}
+
+var multiPair = []multiSpec{
+	{name: "put", pos: []posSpec{{tp: 0, store: 0}, {tp: 1, store: 1}}},
+	{name: "putRev", pos: []posSpec{{tp: 1, store: 1}, {tp: 0, store: 0}}, ret: "int"},
+	{name: "put3", pos: []posSpec{{tp: -1, conc: vInt, store: -1}, {tp: 0, store: 0}, {tp: 1, store: 1}}},
+	{name: "put4", pos: []posSpec{{tp: 0, store: -1}, {tp: 0, store: 0}, {tp: 1, store: 1}, {tp: -1, conc: vString, def: true, store: -1}}, ret: "int"},
+	{name: "putn", pos: []posSpec{{tp: 0, store: 0}, {tp: -1, conc: vString, store: -1}, {tp: 1, nullable: true, store: -1}}},
+}
+
+// nullableOK: methods with a nullable type-parameter position (`?T $x`) are generated and
+// compared. This was calibrated per build while defect generic-nullable-param-unsubstituted
+// was open; since its repair (8dbb2dd) it is unconditional, so a return of the defect is a
+// VIOLATION and not a silently skipped position.
+var nullableOK = true
+
+func (c classSpec) multis() []multiSpec {
+	all := multiBox
+	if c.base == cPair {
+		all = multiPair
+	}
+	if nullableOK {
+		return all
+	}
+	var out []multiSpec
+	for _, m := range all {
+		nul := false
+		for _, p := range m.pos {
+			nul = nul || p.nullable
+		}
+		if !nul {
+			out = append(out, m)
+		}
+	}
+	return out
+}
+
+func (m multiSpec) decl(c classSpec) string {
+	var ps, body []string
+	for i, p := range m.pos {
+		t := ""
+		if p.tp >= 0 {
+			t = c.params[p.tp]
+		} else {
+			t = typeNames[p.conc]
+		}
+		if p.nullable {
+			t = "?" + t
+		}
+		d := fmt.Sprintf("%s $a%d", t, i)
+		if p.def {
+			d += " = " + valueLiteral(int(p.conc), 0)
+		}
+		ps = append(ps, d)
+		if p.store >= 0 {
+			body = append(body, fmt.Sprintf("$this->%s = $a%d;", c.props[p.store], i))
+		}
+	}
+	ret := ""
+	if m.ret != "" {
+		ret = ": " + m.ret
+	}
+	return fmt.Sprintf(" public function %s(%s)%s { %s return 1; }", m.name, strings.Join(ps, ", "), ret, strings.Join(body, " "))
+}
+
+// Argument patterns of a multi method, independent of the instance: 0 = every position
+// gets a value of its declared type; 1..n = exactly position i-1 gets a value of another
+// type; then (if any) the trailing default omitted, and a nullable position given null.
+const (
+	argGood = iota
+	argBad
+	argNull
+	argOmit
+)
+
+func (m multiSpec) patterns() [][]int8 {
+	n := len(m.pos)
+	good := make([]int8, n)
+	out := [][]int8{good}
+	for i := range m.pos {
+		p := make([]int8, n)
+		p[i] = argBad
+		out = append(out, p)
+	}
+	if m.pos[n-1].def {
+		p := make([]int8, n)
+		p[n-1] = argOmit
+		out = append(out, p)
+	}
+	for i, ps := range m.pos {
+		if ps.nullable {
+			p := make([]int8, n)
+			p[i] = argNull
+			out = append(out, p)
+		}
+	}
+	return out
+}
+
+// argKinds resolves a pattern against the target instance's arguments: the value kind
+// per position (-1 omitted) and whether the call must be accepted.
+func (m multiSpec) argKinds(pat []int8, args [2]int8) (kinds []int8, accept bool) {
+	accept = true
+	for i, p := range m.pos {
+		good := p.conc
+		if p.tp >= 0 {
+			good = args[p.tp]
+		}
+		switch pat[i] {
+		case argGood:
+			kinds = append(kinds, good)
+		case argBad:
+			bad := (good + 1) % nTypes
+			if p.tp >= 0 && args[1-p.tp] != good && m.usesBoth() {
+				bad = args[1-p.tp] // the other parameter's argument: catches K/V mix-ups
+			}
+			kinds = append(kinds, bad)
+			accept = false
+		case argNull:
+			kinds = append(kinds, vNull)
+		case argOmit:
+			kinds = append(kinds, -1)
+		}
+	}
+	return
+}
+
+func (m multiSpec) usesBoth() bool {
+	for _, p := range m.pos {
+		if p.tp == 1 {
+			return true
+		}
+	}
+	return false
+}
+
+// firstStore is the property the marker of a multi call reads back, and the position stored into it.
+func (m multiSpec) firstStore() (prop, pos int) {
+	for i, p := range m.pos {
+		if p.store >= 0 {
+			return p.store, i
+		}
+	}
+	return 0, -1
 }
 
 // curExpr reads property p of the object in variable v from top-level code.
@@ -291,7 +465,7 @@ var paramsEnforced bool
 // steps
 
 type step struct {
-	Op     byte // 'I' instantiate, 'W' typed member write from top-level code, 'P' member write from inside a method of another live instance, 'R' property read
+	Op     byte // 'I' instantiate, 'W' typed member write from top-level code, 'P' member write from inside a method of another live instance, 'M' call of a multi-parameter method (Member = method, Val = argument pattern), 'R' property read
 	Class  int8
 	Args   [2]int8
 	Form   int8 // 'I': 0 = `new C<..>()` in line, 1 = through a helper function (one `new` node evaluated repeatedly)
@@ -340,6 +514,18 @@ func (q sequence) String() string {
 			} else {
 				parts = append(parts, fmt.Sprintf("#%d.%s(%s)", s.Inst, tc.memberName(int(s.Member)), valNames[s.Val]))
 			}
+		case 'M':
+			tc := classes[q.instClass(int(s.Inst))]
+			m := tc.multis()[s.Member]
+			_, st := q.instStep(int(s.Inst))
+			kinds, _ := m.argKinds(m.patterns()[s.Val], st.Args)
+			var as []string
+			for _, k := range kinds {
+				if k >= 0 {
+					as = append(as, valNames[k])
+				}
+			}
+			parts = append(parts, fmt.Sprintf("#%d.%s(%s)", s.Inst, m.name, strings.Join(as, ",")))
 		case 'P':
 			tc := classes[q.instClass(int(s.Inst))]
 			_, _, am := tc.peerMember(int(s.Member))
@@ -435,7 +621,7 @@ func renderSeq(sb *strings.Builder, sidx int, q sequence, sfx string) {
 			helpers[h] = true
 			c := classes[s.Class]
 			if c.ctor {
-				fmt.Fprintf(sb, "function %s($x) { return new %s%s<%s>($x); }\n", h, c.name, sfx, argList(c, s.Args))
+				fmt.Fprintf(sb, "function %s($x) { return new %s%s<%s>(7, $x); }\n", h, c.name, sfx, argList(c, s.Args))
 			} else {
 				fmt.Fprintf(sb, "function %s() { return new %s%s<%s>(); }\n", h, c.name, sfx, argList(c, s.Args))
 			}
@@ -462,6 +648,8 @@ func renderSeq(sb *strings.Builder, sidx int, q sequence, sfx string) {
 			var expr string
 			if s.Form == 1 {
 				expr = fmt.Sprintf("%s(%s)", helperName(s), arg)
+			} else if c.ctor {
+				expr = fmt.Sprintf("new %s%s<%s>(7, %s)", c.name, sfx, argList(c, s.Args), arg)
 			} else {
 				expr = fmt.Sprintf("new %s%s<%s>(%s)", c.name, sfx, argList(c, s.Args), arg)
 			}
@@ -483,6 +671,22 @@ func renderSeq(sb *strings.Builder, sidx int, q sequence, sfx string) {
 			cur := "desc(" + c.curExpr(v, p) + ")"
 			fmt.Fprintf(sb, "try { %s echo \"W %d %d accepted \", %s, \"\\n\"; } catch (\\Throwable $e) { echo \"W %d %d rejected \", %s, \" | \", $e->getMessage(), \"\\n\"; }\n",
 				stmt, sidx, j, cur, sidx, j, cur)
+		case 'M':
+			c := classes[q.instClass(int(s.Inst))]
+			m := c.multis()[s.Member]
+			_, st := q.instStep(int(s.Inst))
+			kinds, _ := m.argKinds(m.patterns()[s.Val], st.Args)
+			var as []string
+			for i, k := range kinds {
+				if k >= 0 {
+					as = append(as, valueLiteral(int(k), 1000+10*j+i))
+				}
+			}
+			v := fmt.Sprintf("$q%d_i%d", sidx, s.Inst)
+			p, _ := m.firstStore()
+			cur := "desc(" + c.curExpr(v, p) + ")"
+			fmt.Fprintf(sb, "try { %s->%s(%s); echo \"W %d %d accepted \", %s, \"\\n\"; } catch (\\Throwable $e) { echo \"W %d %d rejected \", %s, \" | \", $e->getMessage(), \"\\n\"; }\n",
+				v, m.name, strings.Join(as, ", "), sidx, j, cur, sidx, j, cur)
 		case 'P':
 			c := classes[q.instClass(int(s.Inst))]
 			p, _, am := c.peerMember(int(s.Member))
@@ -530,6 +734,7 @@ type alphabet struct {
 	classes    []int // classes that may be instantiated (cBox, cPair)
 	nVals      int   // value kinds 0..nVals-1
 	withChecks bool  // also the parameter-only methods (when the interpreter enforces parameter types)
+	withMulti  bool  // also calls of the multi-parameter methods (every argument pattern)
 	withPeers  bool  // also writes performed from inside a method of any live instance of the same class (the target itself included)
 }
 
@@ -579,6 +784,13 @@ func (a alphabet) nextSteps(q sequence) []step {
 		for _, m := range c.topMembers(a.withChecks) {
 			for v := 0; v < a.nVals; v++ {
 				out = append(out, step{Op: 'W', Inst: int8(k), Member: int8(m), Val: int8(v)})
+			}
+		}
+		if a.withMulti && paramsEnforced {
+			for mi, m := range c.multis() {
+				for pi := range m.patterns() {
+					out = append(out, step{Op: 'M', Inst: int8(k), Member: int8(mi), Val: int8(pi)})
+				}
 			}
 		}
 		if a.withPeers {
